@@ -32,7 +32,7 @@ def _mk(props, classes):
     c.name = "frame conditions (no hidden state) on the classes this property runs through: " + ", ".join(
         x.split(".")[-1] for x in classes)
     c.func = classes[0] + ".__init__"
-    c.static = dict(classes=classes, kinds=("frame", "identity"), accepted={})
+    c.static = dict(classes=classes, kinds=("frame", "identity", "kind"), accepted={})
     return c
 
 
